@@ -123,6 +123,30 @@ CLAIMED["C10"] = dict(
     design="6/C10",
 )
 
+CLAIMED["C09"] = dict(
+    text="Lean theorems (Props/C09.lean), for arbitrary member results and any hash function: after a serial run returns normally the "
+         "run manifest says complete with all_valid/all_completed/error_count the conjunction/sum over the members, there is one "
+         "directory per member named by identity (or index), and every member directory is consistent with the in-memory result — "
+         "vars/errors/meta always, data/unmatched/printouts iff non-empty, every manifest fingerprint the hash of the file's final "
+         "content (nothing is written after fingerprinting). Tie: suite `archive` runs groups under all six methods over files with "
+         "quotes, delimiters and newlines, reads the archive back (stdlib JSON/CSV, SHA-256 recomputed) and compares it with the "
+         "in-memory results and with the model's file sets and run manifest.",
+    note="JSON/CSV encodings and SHA-256 are abstract in the model; breadth-first saving is compared on the real code and through the same "
+         "member-directory model.",
+    technique="Lean 4 proof (data-in/file-system-out model of save order) + on-disk correspondence",
+    design="6/C09",
+)
+CLAIMED["C18"] = dict(
+    text="Lean theorem c18_abort (Props/C09.lean): when member k's run raises and the policy re-raises, the exception reaches the caller, "
+         "the run manifest stays `start`, exactly the members up to k have directories, each saved consistently (saveMember_consistent), "
+         "and the next run's directory is fresh (c10_fresh_dir). Tie: suite `abort` produces abort points (member, line) by an argument "
+         "error under a raise policy for all six methods, checks the exception, the member directories, errors.json line numbers, "
+         "completed flags, run manifest status, untouched named-files/named-paths stores, and a follow-up run on the same instance.",
+    note="Known finding abort-on-last-line-completed (see known-findings.txt). Faults are produced by csvpath errors; reader faults are not injected.",
+    technique="Lean 4 proof (exception-path model over member results) + fault enumeration on the real code",
+    design="6/C18",
+)
+
 NOT_YET = "check not built yet in this revision (planned: see DESIGN.md section 6); not claimed until its theorem and correspondence suite exist"
 
 
